@@ -381,6 +381,34 @@ Proof.
   - rewrite !lin_sound. apply lin_eqb_sound. exact H2.
 Qed.
 
+(* unary bodies: a body accepted as the specification's negates both parts, for every duration *)
+Lemma run_unary_sound oc :
+  outcome_eqb oc neg_spec_outcome = true ->
+  forall d, oequiv (run_unary oc d) (Some (neg d)).
+Proof.
+  intros H d. destruct oc as [|t e1 e2 f]; cbn in H; [discriminate|].
+  apply andb_prop in H. destruct H as [H Hf]. apply andb_prop in H. destruct H as [H H2].
+  apply andb_prop in H. destruct H as [Ht H1].
+  apply target_eqb_eq in Ht. apply fmtexpr_eqb_eq in Hf. subst.
+  destruct d as [k sc f [a b]]. cbn. unfold obj_equiv. cbn. repeat split.
+  - rewrite lin_sound. rewrite (lin_eqb_sound _ _ H1). cbn. ring.
+  - rewrite lin_sound. rewrite (lin_eqb_sound _ _ H2). cbn. ring.
+Qed.
+
+Lemma neg_classified0 n :
+  classify_neg n = 0%Z -> exists oc, n = NegBody oc /\ forall d, oequiv (run_unary oc d) (Some (neg d)).
+Proof.
+  destruct n as [| |oc]; cbn; try discriminate.
+  destruct (outcome_eqb oc neg_spec_outcome) eqn:E; [|discriminate].
+  intros _. exists oc. split; [reflexivity|]. apply run_unary_sound. exact E.
+Qed.
+
+Lemma neg_classified4 n : classify_neg n = 4%Z -> n = NegAbsent.
+Proof.
+  destruct n as [| |oc]; cbn; try discriminate; [reflexivity|].
+  destruct (outcome_eqb oc neg_spec_outcome); discriminate.
+Qed.
+
 (* the hand-written program-language copies of the models are the models *)
 Lemma spec_method_is_model q op s o :
   okind s = self_kind op -> oequiv (run_method (spec_method q op) s o) (model q op s o).
